@@ -16,7 +16,7 @@ open Status
 
 /-- Writing a status into headers never fails, whatever the code, message bytes, details,
 metadata and the block written into: `add_header` returns `Ok` (its `Err` branch — a value that
-is not a legal header value — is unreachable). -/
+is not a legal header value — is unreachable). (Transcription lemma: it holds by unfolding the model's definition, so it pins the model's shape for the correspondence run — its assurance about tonic is the tie, not this proof.) -/
 theorem C04_write_never_fails (v : Variant) (st : St) (h0 : HMap) : ∃ h, addHeader v st h0 = .ok h :=
   ⟨wire v st h0, addHeader_eq v st h0⟩
 
